@@ -69,3 +69,54 @@ Definition frame_layout (header : bytes) (f : frame) : bytes :=
 
 Definition hdr_layout (h : fhdr) : bytes :=
   match h with HTrunc b => thdr_layout b | HPrim p => phdr_layout p end.
+
+(* ---- the frames the standard defines (used as hypotheses of the frame theorems) ---- *)
+Definition fhp_valid (o : option Z) : Prop :=
+  match o with Some v => 0 <= v <= 65535 | None => True end.
+Definition is_some {A} (o : option A) : bool := match o with Some _ => true | None => false end.
+
+(* data field: rule 0..7, protocol id 0..31, pointer supplied exactly when the standard
+   has one, cached size up to date (it is after the constructor and after every use of
+   the tfdz setter) *)
+Definition tfdf_consistent (t : tfdf) (truncated : bool) : Prop :=
+  0 <= rules t <= 7 /\ 0 <= ident t <= 31 /\ fhp_valid (fhp t) /\
+  is_some (fhp t) = spec_has_pointer (rules t) truncated /\
+  tsize t = tfdf_header_len (fhp t) + len (tfdz t).
+
+Definition hdr_valid (h : fhdr) : Prop :=
+  match h with HTrunc b => base_valid b | HPrim p => phdr_valid p end.
+
+(* OCF present (4 octets) exactly when the header's OCF flag is set; never in truncated frames *)
+Definition ocf_consistent (h : fhdr) (o : option bytes) : Prop :=
+  match h with
+  | HTrunc _ => o = None
+  | HPrim p => match o with
+               | None => ocf_flag p = 0
+               | Some b => ocf_flag p = 1 /\ len b = 4
+               end
+  end.
+
+(* the frame type a construction rule belongs to *)
+Definition ftype_of_rule (r : Z) : ftype := if r <? 3 then FtFixed else FtVariable.
+
+Definition frame_consistent (f : frame) : Prop :=
+  hdr_valid (hdr f) /\ tfdf_consistent (ftfdf f) (hdr_truncated (hdr f)) /\
+  ocf_consistent (hdr f) (ocf f) /\
+  (* truncated frames exist only among variable-length frames *)
+  (hdr_truncated (hdr f) = true -> 3 <= rules (ftfdf f)).
+
+Definition hdr_norm (h : fhdr) : fhdr :=
+  match h with HTrunc b => HTrunc b | HPrim p => HPrim (phdr_norm p) end.
+Definition frame_norm (f : frame) : frame :=
+  {| hdr := hdr_norm (hdr f); ftfdf := ftfdf f; izone := izone f; ocf := ocf f; fecf := fecf f |}.
+
+(* managed parameters that match a frame *)
+Definition props_match (f : frame) (p : fprops) : Prop :=
+  p_fixed p = (match ftype_of_rule (rules (ftfdf f)) with FtFixed => true | FtVariable => false end) /\
+  (p_fixed p = true \/ hdr_truncated (hdr f) = true -> p_len p = frame_len_of f) /\
+  iz_present p = is_some (izone f) /\ (iz_present p = true -> iz_size p = opt_len (izone f)) /\
+  fecf_present p = is_some (fecf f) /\ (fecf_present p = true -> fecf_size p = opt_len (fecf f)).
+
+(* the header's frame length field holds the total number of octets minus one *)
+Definition frame_len_set (f : frame) : Prop :=
+  match hdr f with HPrim p => frame_len p = frame_len_of f - 1 | HTrunc _ => True end.
